@@ -48,7 +48,7 @@ _ops = {"c": None}
 
 
 def generate(rng, tier, shard, nshards, mon):
-    n = (960 if tier == "quick" else 8000) // nshards
+    n = (960 if tier == "quick" else 40000) // nshards
     for _ in range(n):
         spec = kernels.rand_spec(rng, tiles=True)
         lv = spec["order"]
